@@ -2,6 +2,8 @@ package main
 
 import (
 	"bytes"
+	"encoding/binary"
+	"hash/crc32"
 	"fmt"
 	"io/ioutil"
 	"math"
@@ -89,6 +91,20 @@ func genEntryKind(r *rand.Rand, big bool) *recKind {
 		f.Timestamp = 1 // (crc, sizes, timestamp) all zero is the documented "no record here" marker
 	}
 	enc := nutsdb.VerifNewEntry(f).Encode()
+	if forge := r.Intn(5); forge == 0 && len(f.Value) >= 4 {
+		// a record whose stored checksum is 0 - the value the "no record here" test looks at: the last four value
+		// bytes are chosen so that the CRC-32 of the record comes out as that. (0xffffffff is not forged: the
+		// CRC-32 of ff ff ff ff followed by any number of zero bytes is 0xffffffff, so such a record with a
+		// timestamp of all ones, truncated to 8 bytes, IS a valid empty record - a property of the checksum, not a
+		// defect of the reader; see DESIGN section 7.)
+		want := uint32(0)
+		tail := forgeCRC(enc[4:len(enc)-4], want)
+		copy(f.Value[len(f.Value)-4:], tail[:])
+		enc = nutsdb.VerifNewEntry(f).Encode()
+		if got := binary.LittleEndian.Uint32(enc[0:4]); got != want {
+			panic(fmt.Sprintf("harness: forged checksum is %08x, wanted %08x", got, want))
+		}
+	}
 	k := &recKind{name: "entry", want: entryDesc(f), pad: 16}
 	k.encode = func() []byte { return enc }
 	k.read = func(path string, rw int) (string, error) {
@@ -166,6 +182,24 @@ func genBucketMetaKind(r *rand.Rand) *recKind {
 	}
 	k.heavy = heavyBits(4, 8)
 	return k
+}
+
+// forgeCRC returns the four bytes which, appended to prefix, give the whole a CRC-32 (IEEE) of want.
+func forgeCRC(prefix []byte, want uint32) [4]byte {
+	tab := crc32.IEEETable
+	var rev [256]byte // rev[top byte of tab[i]] = i
+	for i := 0; i < 256; i++ {
+		rev[tab[i]>>24] = byte(i)
+	}
+	state := ^crc32.ChecksumIEEE(prefix) // register after the prefix
+	target := ^want                      // register after the four bytes
+	// run the register backwards over four byte steps
+	for i := 0; i < 4; i++ {
+		idx := rev[target>>24]
+		target = (target^tab[idx])<<8 | uint32(idx)
+	}
+	v := target ^ state
+	return [4]byte{byte(v), byte(v >> 8), byte(v >> 16), byte(v >> 24)}
 }
 
 // heavyBits: a flip of bit 20..31 of a little-endian uint32 size field (at the given byte offsets) changes
